@@ -13,6 +13,7 @@ import (
 	"math/bits"
 
 	"pgregory.net/rapid"
+	"verif/ref/ec"
 	"verif/ref/wire"
 )
 
@@ -1083,6 +1084,102 @@ func (g *G) command() string {
 }
 
 // sequence draws 1..30 messages for one connection.
+// A taproot output with one script leaf, built with the reference library (BIP341): internal key P,
+// leaf "<key> OP_CHECKSIG", output key Q = P + H_TapTweak(P || leafhash)G.
+var tapPk, tapScript, tapControl = func() (pk, scr, ctl []byte) {
+	k1 := sha256.Sum256([]byte("verif-c18-taproot-internal"))
+	k2 := sha256.Sum256([]byte("verif-c18-taproot-leaf"))
+	p32, _ := ec.XOnlyPubKey(k1[:])
+	l32, _ := ec.XOnlyPubKey(k2[:])
+	scr = append(append([]byte{0x20}, l32...), 0xac)
+	leaf := ec.TaggedHash("TapLeaf", []byte{0xc0}, []byte{byte(len(scr))}, scr)
+	q32, parity, ok := ec.TweakAdd(p32, ec.TaggedHash("TapTweak", p32, leaf))
+	if !ok {
+		panic("taproot tweak")
+	}
+	c0 := byte(0xc0)
+	if parity {
+		c0 |= 1
+	}
+	return append([]byte{0x51, 0x20}, q32...), scr, append([]byte{c0}, p32...)
+}()
+
+var tapHashTypes = []byte{0x00, 0x01, 0x02, 0x03, 0x81, 0x82, 0x83, 0x03, 0x83, 0x04, 0x80, 0x84, 0xff}
+
+// tapWitness: the witness of a key-path (one signature element) or script-path (signature, script,
+// control block) spend of tapPk; signature bytes arbitrary, 64 bytes or 65 with any hash-type byte;
+// optionally an annex.
+func (g *G) tapWitness(scriptPath bool) [][]byte {
+	sig := g.bytesN(64, 64)
+	switch g.k(8) {
+	case 0: // 64 bytes: SIGHASH_DEFAULT
+	case 1:
+		sig = append(sig, rapid.Byte().Draw(g.t, "hashtype"))
+	case 2:
+		sig = g.bytesN(0, 70)
+	default:
+		sig = append(sig, pick(g, tapHashTypes))
+	}
+	w := [][]byte{sig}
+	if scriptPath {
+		w = append(w, tapScript, tapControl)
+		if g.chance(10) {
+			w[2] = append(append([]byte{}, tapControl...), g.bytesN(32, 32)...) // a merkle path that does not fit
+		}
+	}
+	if g.chance(30) {
+		w = append(w, append([]byte{0x50}, g.bytesN(0, 20)...)) // annex
+	}
+	return w
+}
+
+// taprootSpendScenario reaches script verification in the mempool with taproot spends: T1 (spending a
+// start-up output) creates 2..3 outputs locked to tapPk and is admitted; T2 spends them (as inputs that
+// live in the mempool) together with 0..2 other start-up outputs, by key path or script path, with the
+// taproot inputs placed before / at / behind the number of its outputs.
+func (g *G) taprootSpendScenario() []msg {
+	e := g.e
+	var plain []spendable
+	for j, sp := range e.spend {
+		if sp.Kind == "true" && !g.spentAt[j] {
+			plain = append(plain, sp)
+			g.spentAt[j] = true
+		}
+	}
+	nt := g.n(2, 3, "ntapout")
+	t1 := &wire.Tx{Version: 2, In: []wire.TxIn{{PrevHash: plain[0].TxID, PrevIndex: plain[0].Vout, Sequence: 0xffffffff}}}
+	for i := 0; i < nt; i++ {
+		t1.Out = append(t1.Out, wire.TxOut{Value: (plain[0].Value - 5000) / uint64(nt), PkScript: tapPk})
+	}
+	id1 := t1.TxID()
+	t2 := &wire.Tx{Version: 2}
+	var total uint64
+	for i, n := 0, g.n(0, 2, "nplainin"); i < n; i++ {
+		t2.In = append(t2.In, wire.TxIn{PrevHash: plain[1+i].TxID, PrevIndex: plain[1+i].Vout, Sequence: 0xffffffff})
+		total += plain[1+i].Value
+	}
+	for i := 0; i < nt; i++ {
+		in := wire.TxIn{PrevHash: id1, PrevIndex: uint32(i), Sequence: 0xffffffff, Witness: g.tapWitness(g.chance(40))}
+		t2.In = append(t2.In, in)
+		total += t1.Out[i].Value
+	}
+	if g.chance(30) { // taproot inputs first
+		for i, j := 0, len(t2.In)-1; i < j; i, j = i+1, j-1 {
+			t2.In[i], t2.In[j] = t2.In[j], t2.In[i]
+		}
+	}
+	nout := g.n(0, len(t2.In), "ntapspendout")
+	for i := 0; i < nout; i++ {
+		t2.Out = append(t2.Out, wire.TxOut{Value: (total - 20000) / uint64(nout), PkScript: []byte{0x51}})
+	}
+	g.txs = append(g.txs, t1, t2)
+	out := []msg{{Cmd: "tx", Pl: hex.EncodeToString(t1.Serialize(true)), Kind: "wf"}}
+	if g.chance(20) {
+		out = append(out, msg{Cmd: "ping", Pl: "0102030405060708", Kind: "wf"})
+	}
+	return append(out, msg{Cmd: "tx", Pl: hex.EncodeToString(t2.Serialize(true)), Kind: "wf"})
+}
+
 // downloadScenario drives the node into "full block requested from this very peer": the peer announces
 // 1..3 new blocks on the tip (headers), says there are no more (empty headers), and the loop's periodic
 // part (Tick -> GetBlockData) then sends getdata for them - GetBlockInProgress entries WITHOUT a
